@@ -2,11 +2,12 @@ package sym
 
 import (
 	"fmt"
-	"os"
-	"strconv"
 	"go/token"
 	"go/types"
 	"math/big"
+	"os"
+	"sort"
+	"strconv"
 	"strings"
 )
 
@@ -232,6 +233,18 @@ func registerIntrinsics(e *Engine) {
 			return st.eqValues(ev.Args[k], want)
 		}
 		return FalseT
+	}
+	// vDebug(label, v): print the engine's view of a value (tracing aid)
+	I["vDebug"] = func(st *State, a []Value) Value {
+		if st.E.Trace {
+			v := a[1]
+			if iv, ok := v.(*IfaceV); ok && iv.T != nil {
+				fmt.Fprintf(os.Stderr, "    vDebug %s: dynamic type %s value %s\n", showValue(a[0]), iv.T, st.showDeep(iv.V, 6))
+			} else {
+				fmt.Fprintf(os.Stderr, "    vDebug %s: %s\n", showValue(a[0]), st.showDeep(v, 3))
+			}
+		}
+		return nil
 	}
 	// vRunGoroutines(): run the goroutines created so far by go statements, in
 	// creation order (goroutines they create in turn included, up to 16).
@@ -731,6 +744,74 @@ func registerLibHooks(e *Engine) {
 		}
 		set(st, k+":r", held(st, k+":r")-1)
 	})
+	// strings.Builder: the content is kept as a string term per builder object
+	sbKey := func(v Value) string {
+		p, ok := v.(*PtrV)
+		if !ok || p.Obj == nil {
+			return "sb:nil"
+		}
+		return fmt.Sprintf("sb:%d:%v", p.Obj.ID, p.Path)
+	}
+	sbGet := func(st *State, k string) *Term {
+		if t, ok := st.scratch[k].(*Term); ok {
+			return t
+		}
+		return StrT("")
+	}
+	intRes := func(st *State, n *Term) Value {
+		return TupleV{st.fromMathInt(n, types.Typ[types.Int]), &IfaceV{}}
+	}
+	H["(*strings.Builder).WriteString"] = func(st *State, a []Value) Value {
+		k := sbKey(a[0])
+		s := a[1].(*Term)
+		st.scratch[k] = StrConcat(sbGet(st, k), s)
+		return intRes(st, st.strLen(s))
+	}
+	H["(*strings.Builder).WriteByte"] = func(st *State, a []Value) Value {
+		k := sbKey(a[0])
+		c, ok := a[1].(*Term)
+		if !ok || !c.Const {
+			st.unsupported("strings.Builder.WriteByte of a symbolic byte")
+		}
+		st.scratch[k] = StrConcat(sbGet(st, k), StrT(string([]byte{byte(c.CI.Int64())})))
+		return &IfaceV{}
+	}
+	H["(*strings.Builder).WriteRune"] = func(st *State, a []Value) Value {
+		k := sbKey(a[0])
+		c, ok := a[1].(*Term)
+		if !ok || !c.Const {
+			st.unsupported("strings.Builder.WriteRune of a symbolic rune")
+		}
+		r := string(rune(c.CI.Int64()))
+		st.scratch[k] = StrConcat(sbGet(st, k), StrT(r))
+		return intRes(st, IntT64(int64(len(r))))
+	}
+	H["(*strings.Builder).String"] = func(st *State, a []Value) Value { return sbGet(st, sbKey(a[0])) }
+	H["(*strings.Builder).Len"] = func(st *State, a []Value) Value {
+		return st.fromMathInt(st.strLen(sbGet(st, sbKey(a[0]))), types.Typ[types.Int])
+	}
+	H["(*strings.Builder).Reset"] = func(st *State, a []Value) Value { st.scratch[sbKey(a[0])] = StrT(""); return nil }
+	H["(*strings.Builder).Grow"] = func(st *State, a []Value) Value { return nil }
+	H["sort.Strings"] = func(st *State, a []Value) Value {
+		sl, ok := a[0].(*SliceV)
+		if !ok || sl.Obj == nil {
+			return nil
+		}
+		el := st.sliceElems(sl)
+		var ss []string
+		for _, e := range el {
+			t, ok := e.(*Term)
+			if !ok || !t.Const {
+				st.unsupported("sort.Strings on symbolic strings")
+			}
+			ss = append(ss, t.CS)
+		}
+		sort.Strings(ss)
+		for i, x := range ss {
+			st.store(&PtrV{Obj: sl.Obj, Path: []int{sl.Off + i}}, StrT(x))
+		}
+		return nil
+	}
 	H["sync/atomic.LoadUint64"] = func(st *State, a []Value) Value {
 		if h := st.E.Hooks["@atomic-load"]; h != nil {
 			h(st, a)
@@ -832,7 +913,14 @@ func registerLibHooks(e *Engine) {
 	H["runtime.Callers"] = func(st *State, a []Value) Value { return st.E.intTerm(big.NewInt(0), intT) }
 	H["runtime/debug.Stack"] = func(st *State, a []Value) Value { return &SliceV{} }
 	H["(*go/token.FileSet).Position"] = func(st *State, a []Value) Value {
-		return st.E.Zero(st.E.namedType("go/token", "Position"))
+		// a file set with one file "_.go" (yaegi's DefaultSourceName) in which position p lies on line p
+		z := st.E.Zero(st.E.namedType("go/token", "Position")).(*StructV)
+		f := append([]Value(nil), z.F...)
+		f[0] = StrT("_.go")
+		if p, ok := a[1].(*Term); ok {
+			f[2] = st.fromMathInt(st.mathInt(p, types.Typ[types.Int]), types.Typ[types.Int])
+		}
+		return &StructV{F: f}
 	}
 	H["(go/token.Position).String"] = func(st *State, a []Value) Value { return StrT("-") }
 	H["(*go/token.Position).String"] = H["(go/token.Position).String"]
@@ -873,7 +961,23 @@ func registerLibHooks(e *Engine) {
 	}
 	H["fmt.Errorf"] = func(st *State, a []Value) Value {
 		st.E.objCtr++
-		return &IfaceV{T: opaqueDyn, V: &OpaqueV{Name: "fmt.Errorf", ID: st.E.objCtr}}
+		// keep the format and the constant string arguments in the name: the text is not
+		// interpreted, but it tells which error this is when a run diverges
+		name := "fmt.Errorf"
+		if f, ok := a[0].(*Term); ok && f.Const {
+			name += "(" + f.CS
+			if sl, ok := a[1].(*SliceV); ok {
+				for _, e := range st.sliceElems(sl) {
+					if iv, ok := e.(*IfaceV); ok {
+						if t, ok := iv.V.(*Term); ok && t.Const && t.Sort == SString {
+							name += " | " + t.CS
+						}
+					}
+				}
+			}
+			name += ")"
+		}
+		return &IfaceV{T: opaqueDyn, V: &OpaqueV{Name: name, ID: st.E.objCtr}}
 	}
 	H["errors.New"] = func(st *State, a []Value) Value {
 		return &IfaceV{T: st.E.errorsStringType(), V: &PtrV{Obj: st.newObject(nil, "errors.New", &StructV{F: []Value{a[0]}})}}
@@ -1042,4 +1146,32 @@ func (e *Engine) errorsStringType() types.Type {
 		}
 	}
 	return opaqueDyn
+}
+
+// showDeep renders a value, following pointers and structs a few levels.
+func (st *State) showDeep(v Value, depth int) string {
+	if depth == 0 {
+		return "..."
+	}
+	switch x := v.(type) {
+	case *PtrV:
+		if x.Obj == nil {
+			return "nil"
+		}
+		return "&" + st.showDeep(st.load(x), depth-1)
+	case *StructV:
+		var parts []string
+		for _, f := range x.F {
+			parts = append(parts, st.showDeep(f, depth-1))
+		}
+		return "{" + strings.Join(parts, ", ") + "}"
+	case *IfaceV:
+		if x.T == nil {
+			return "nil-iface"
+		}
+		return fmt.Sprintf("(%s)%s", x.T, st.showDeep(x.V, depth-1))
+	case *OpaqueV:
+		return "opaque<" + x.Name + ">"
+	}
+	return showValue(v)
 }
